@@ -26,6 +26,8 @@ type c07 struct {
 	perReq2 uint64
 	dag2    *DAG
 	earlier uint64 // a limit set by an earlier hook call for the same request (0 = none); the later call counts
+	// the responder may lack some of the blocks: a link it cannot load is still a link it tried, and is charged
+	holes bool
 }
 
 func newC07() Scenario { return &c07{c02: c02{prop: "C07"}} }
@@ -38,10 +40,20 @@ func (s *c07) Build(w *World) {
 	s.dag = GenDAG(t, GenCfg{MaxBlocks: 2 + t.Draw(14), MaxDepth: 1 + t.Draw(4), Share: []int{0, 100, 300}[t.Draw(3)]})
 	s.sel, s.selDesc = GenSelector(t, 6)
 	csel, _ := CanonicalSelector(s.sel)
-	full := func(path string, c cid.Cid) ([]byte, bool) { b, ok := s.dag.Blocks[c]; return b, ok }
-	ref := Ref(s.dag.Root, csel, full, 0)
-	s.needed = len(ref.Loads)
 	s.side = []string{"requestor", "responder"}[t.Draw(2)]
+	s.split = Split{Rq: map[cid.Cid]bool{}, Rs: map[cid.Cid]bool{}}
+	s.holes = s.side == "responder" && t.Chance(350)
+	for _, c := range s.dag.Order {
+		s.split.Rs[c] = !s.holes || c.Equals(s.dag.Root.Cid) || !t.Chance(300)
+	}
+	held := func(path string, c cid.Cid) ([]byte, bool) {
+		if !s.split.Rs[c] {
+			return nil, false
+		}
+		return s.dag.Blocks[c], true
+	}
+	ref := Ref(s.dag.Root, csel, held, 0)
+	s.needed = len(ref.Loads)
 	// the N dimension is enumerated around the interesting points
 	pick := func() uint64 {
 		cands := []int{1, 2, s.needed - 1, s.needed, s.needed + 1, s.needed + 10, 3}
@@ -63,10 +75,8 @@ func (s *c07) Build(w *World) {
 	if s.n == 0 || (s.perReq != 0 && s.perReq < s.n) {
 		s.n = s.perReq
 	}
-	s.split = Split{Rq: map[cid.Cid]bool{}, Rs: map[cid.Cid]bool{}}
 	s.localAll = s.side == "requestor" && t.Chance(400)
 	for _, c := range s.dag.Order {
-		s.split.Rs[c] = true
 		if s.localAll {
 			s.split.Rq[c] = true
 		}
@@ -143,7 +153,7 @@ func (s *c07) Describe(w *World) string {
 	if s.req2 != nil {
 		second = fmt.Sprintf(" then r2 perReq=%d", s.perReq2)
 	}
-	return fmt.Sprintf("side=%s earlier=%d global=%d perReq=%d N=%d needed=%d localAll=%v dag=%d sel=%s%s", s.side, s.earlier, s.global, s.perReq, s.n, s.needed, s.localAll, len(s.dag.Order), s.selDesc, second)
+	return fmt.Sprintf("side=%s holes=%v earlier=%d global=%d perReq=%d N=%d needed=%d localAll=%v dag=%d sel=%s%s", s.side, s.holes, s.earlier, s.global, s.perReq, s.n, s.needed, s.localAll, len(s.dag.Order), s.selDesc, second)
 }
 
 func (s *c07) Done(w *World) bool {
@@ -238,6 +248,9 @@ func (s *c07) finalOne(w *World) *Violation {
 		}
 	}
 	out := ResponderOutput(w.Net.WireFor("B", "A"), s.req.ID)
+	if s.holes && s.req == s.reqFirst() {
+		return s.finalHoles(w, out, loaded, N)
+	}
 	if loaded > N {
 		return &Violation{Property: "C07", Rule: "R1", Signature: sigSide + "/over-budget", Detail: fmt.Sprintf("responder loaded %d blocks with budget %d", loaded, N)}
 	}
@@ -256,6 +269,53 @@ func (s *c07) finalOne(w *World) *Violation {
 	}
 	if last != graphsync.RequestFailedUnknown {
 		return &Violation{Property: "C07", Rule: "R3", Signature: sigSide + "/wrong-terminal-status", Detail: fmt.Sprintf("needed %d > budget %d but terminal status %d", needed, N, last)}
+	}
+	return nil
+}
+
+func (s *c07) reqFirst() *Req { return s.a.Reqs["r1"] }
+
+// finalHoles: the responder lacks some blocks. The budget is a link budget: every link the traversal tries to load
+// is charged, found or not, and each one is a metadata entry of the response. The reference is the plain walk over
+// the responder's partial store.
+func (s *c07) finalHoles(w *World, out RespOutput, loaded, N int) *Violation {
+	csel, _ := CanonicalSelector(s.sel)
+	ref := Ref(s.dag.Root, csel, func(path string, c cid.Cid) ([]byte, bool) {
+		if !s.split.Rs[c] {
+			return nil, false
+		}
+		return s.dag.Blocks[c], true
+	}, 0)
+	needed, missed := len(ref.Loads), 0
+	for _, l := range ref.Loads {
+		if !l.Found {
+			missed++
+		}
+	}
+	w.Probe("c07-responder-lacks-blocks")
+	last := graphsync.ResponseStatusCode(0)
+	if len(out.Statuses) > 0 {
+		last = out.Statuses[len(out.Statuses)-1]
+	}
+	if len(out.Entries) > N || loaded > N {
+		return &Violation{Property: "C07", Rule: "R1", Signature: "responder/over-budget:some-blocks-missing", Detail: fmt.Sprintf("responder tried %d links (%d blocks found) with budget %d; the walk over its store tries %d links, %d of them missing", len(out.Entries), loaded, N, needed, missed)}
+	}
+	if needed <= N {
+		want := graphsync.RequestCompletedFull
+		if missed > 0 {
+			want = graphsync.RequestCompletedPartial
+		}
+		if last != want || len(out.Entries) != needed {
+			return &Violation{Property: "C07", Rule: "R2", Signature: fmt.Sprintf("responder/budget-caused-failure:some-blocks-missing/N=%s", nClass(N, needed)), Detail: fmt.Sprintf("the walk tries %d links (%d missing) <= budget %d but the response has %d entries and final status %d (want %d)", needed, missed, N, len(out.Entries), last, want)}
+		}
+		return nil
+	}
+	w.Probe("c07-budget-runs-out-after-a-missing-block")
+	if len(out.Entries) != N {
+		return &Violation{Property: "C07", Rule: "R3", Signature: fmt.Sprintf("responder/not-exactly-N:some-blocks-missing/N=%s", nClass(N, needed)), Detail: fmt.Sprintf("the walk tries %d links > budget %d: responder tried %d, want exactly %d", needed, N, len(out.Entries), N)}
+	}
+	if last != graphsync.RequestFailedUnknown {
+		return &Violation{Property: "C07", Rule: "R3", Signature: "responder/wrong-terminal-status:some-blocks-missing", Detail: fmt.Sprintf("the walk tries %d links > budget %d but terminal status %d", needed, N, last)}
 	}
 	return nil
 }
